@@ -331,7 +331,7 @@ class Ctx:
         for k in range(0, len(cases), shard):
             chunk = cases[k:k + shard]
             name = "cases_%s_%d" % (self.prop, k // shard)
-            body = [header, "Require Import Coq.Lists.List Coq.NArith.NArith. Import ListNotations.",
+            body = ["Require Import Coq.Lists.List Coq.NArith.NArith. Import ListNotations.", header,
                     "Definition the_cases : list (%s) := [\n%s\n]." % (case_type, ";\n".join(chunk)),
                     "Fixpoint failing_ (i : N) (l : list (%s)) : list N := match l with [] => [] "
                     "| c :: r => if (%s) c then failing_ (N.succ i) r else i :: failing_ (N.succ i) r end."
@@ -373,7 +373,7 @@ class Ctx:
         d = self.scratch / "cases"
         d.mkdir(exist_ok=True)
         f = d / ("show_%s.v" % self.prop)
-        body = [header, "Require Import Coq.Lists.List. Import ListNotations.", "Set Printing Width 200."]
+        body = ["Require Import Coq.Lists.List. Import ListNotations.", header, "Set Printing Width 200."]
         for i, t in enumerate(terms):
             body += ['Goal True. idtac "@@SHOW %d". Abort.' % i, "Eval vm_compute in (%s)." % t]
         body += ['Goal True. idtac "@@SHOW-END". Abort.']
